@@ -222,6 +222,12 @@ def _r063(ck, prog, cfg):
     ins = [(b, t) for b, t in ing.calls() if is_callee(t, r"HashMap::<.*ReplicatedValue>::insert$")]
     ck.check(len(ups) >= 1 and len(ins) >= 1 and all(ing.dominates(ups[0][0], ib) for ib, _ in ins), "R06.3", "ingest:update-before-store" + _tag(cfg),
              "the remote value is stored without a dominating LamportClock::update", ing.where(), detail="update dominates insert")
+    # every received delta ends up stored: no exit of the ingest that skips the insert (a dropped tombstone lets an older SET win later)
+    ins_b = {ib for ib, _ in ins}
+    skip = lib2.path_avoiding(ing, 0, lambda x: ing.term(x)["k"] == "return", lambda x: x in ins_b, (), from_succ=False)
+    ck.check(bool(ins_b) and skip is None, "R06.3", "ingest:always-stores" + _tag(cfg),
+             "ShardReplicaState::apply_remote_delta can return without storing the merged value (a received delta - e.g. a tombstone for a key "
+             "not yet known - is dropped): delivery order then decides the outcome, replicas diverge", ing.where(), detail="insert on every path")
     # on the path where a local value exists the stored value is the merge result
     good = False
     for ib, it in ins:
